@@ -23,7 +23,7 @@ CLAIM = {
 }
 
 ENTRY_FLOOR = 12
-FN_FLOOR = 700
+FN_FLOOR = 800
 ASSERT_FLOOR = 100
 
 
